@@ -629,6 +629,8 @@ class Extractor:
             return FALSE if t[2] in ('0', '0.0', "''") else TRUE
         if t[0] == 'first':
             return mk_any(t[1], t[2])      # the first match exists iff some element matches
+        if t[0] == 'filtermap' and len(t) == 3 and len(t[1]) == 1:
+            return mk_any(t[1][0][0], t[1][0][1])      # a filtered list is non-empty iff some element passes
         if t[0] == 'call' and t[1] == 'getattr' and len(t) > 2 and len(t[2]) == 3 and t[2][1][0] == 'lit' \
                 and t[2][1][1] == 'str' and t[2][2] == ('const', None):
             # truth of getattr(x, 'f', None): the attribute exists and is truthy
